@@ -278,7 +278,36 @@ func genC12(r *Rng, tier string) *Plan {
 		}
 	}
 	n := r.Range(1, 6)
+	// "parked" entity: the configuration of a childless non-root entity is taken out of the directory
+	// (its artifact stays) and put back unchanged in front of the final run; whatever happened to its
+	// issuer in between - re-issued in a run that could not know about the parked entity - the final
+	// run has to notice from the files alone
+	var parked *EntitySpec
+	parkAt := -1
+	if g.Ran && r.Chance(1, 5) {
+		parkAt = r.Intn(n)
+	}
 	for i := 0; i < n; i++ {
+		if i == parkAt {
+			var cands []*EntitySpec
+			for _, l := range g.leaves(true) {
+				if !g.Csr[l.ID] {
+					cands = append(cands, l)
+				}
+			}
+			if len(cands) > 0 && len(g.Ents) > 1 {
+				parked = Pick(r, cands).Clone()
+				g.removeEnt(parked.ID)
+				g.P.Add(Op{K: "rm-ent", Ent: parked.ID, Arg: "keep-art", Label: "park-entity"})
+				g.P.Meta["parked"] = parked.ID
+				if is := g.byAlias(parked.Issuer); is != nil && r.Chance(2, 3) {
+					ne := editSubject(r, is)
+					g.setEnt(ne)
+					g.P.Add(Op{K: "put-ent", Spec: ne, Label: "edit-subject"})
+					g.Run(DefaultFlags, "mid")
+				}
+			}
+		}
 		if r.Chance(1, 4) {
 			run := g.Run(uint8(r.Intn(32)), "mid")
 			// an external edit landing between two file-system operations of this run
@@ -316,6 +345,18 @@ func genC12(r *Rng, tier string) *Plan {
 		for _, o := range g.c12Op(&nextEnt) {
 			g.P.Add(o)
 		}
+	}
+	if parked != nil {
+		is := g.byAlias(parked.Issuer)
+		signer := keyFamily(parked.KeyAlg)
+		if is != nil && !g.Csr[is.ID] {
+			signer = keyFamily(is.KeyAlg)
+		} else {
+			parked.Issuer = "" // its issuer is gone (or cannot sign any more): it comes back as a root
+		}
+		fitSigAlg(r, parked, signer)
+		g.setEnt(parked)
+		g.P.Add(Op{K: "put-ent", Spec: parked, Label: "unpark-entity"})
 	}
 	if r.Chance(1, 10) {
 		// the final run sees every timestamp ahead of its clock, by hours to years (the clock was set
